@@ -1,3 +1,4 @@
+import Pds.Proofs.KernelTie.BloomOps
 import Pds.Proofs.KernelTie.QfUnion
 import Pds.Proofs.KernelTie.MergeHll
 import Pds.Proofs.KernelTie.MergeCms
@@ -36,5 +37,12 @@ theorem qf_union_translated {N : Nat} (qb rb : Nat) (t o : Quotient.St N) :
       | none => Flow.panic
       | some (t', .full) => Flow.ret (2, (occL t', contL t', shiftL t', remL t', t'.n))
       | some (t', .ok _) => Flow.ret (1, (occL t', contL t', shiftL t', remL t', t'.n)) := qf_union_eq qb rb t o
+
+/-- `BloomFilter::union` as translated (both `assert_eq!`, the bitwise or of the two bit sets) is the model's `union` -/
+theorem bloom_union_translated (s o : Bloom.St) :
+    bloom_union s.k s.bits.toList o.k o.bits.toList =
+      match Bloom.union s o with
+      | none => Flow.panic
+      | some s' => Flow.cont s'.bits.toList := bloom_union_eq s o
 
 end Pds.Tie.C06
